@@ -87,6 +87,8 @@ PATH_KINDS = (
     + [dict(kind='simple_rfi_path', drift=-0.6, spread=0.0, spread_type='uniform', rfi_type='stationary'),
        dict(kind='simple_rfi_path', drift=0.7, spread=0.0, spread_type='normal', rfi_type='random_walk')]
     + [dict(kind='custom', drift=0.4)]
+    # a path FUNCTION that returns unsigned integers (centre frequencies read off an integer table), drifting down and up
+    + [dict(kind='custom', drift=-2.7, uint=True), dict(kind='custom', drift=2.7, uint=True)]
     + [dict(kind=k, drift=0.7) for k in ('array', 'list')]
     + [dict(kind='array', drift=0.7, ints=True), dict(kind='list', drift=0.7, ints=True)]
     + [dict(kind='array', drift=1.3, closed=True)]
@@ -231,6 +233,8 @@ def concretise(case, fs, ts):
     elif k == 'simple_rfi_path':
         ps = dict(kind=k, f_start=f0, drift_rate=rate, spread=p['spread'] * df, spread_type=p['spread_type'],
                   rfi_type=p['rfi_type'], seed=1000 + 7 * seed)
+    elif k == 'custom' and p.get('uint'):
+        ps = dict(kind='custom', name='steps_uint_path', params=dict(f0=int(round(f0)), step=int(round(rate * dt)), dt=dt))
     elif k == 'custom':
         ps = dict(kind='custom', name='cubic_path', params=dict(f0=f0, a=rate, b=-0.15 * df / dt ** 3))
     elif k in ('array', 'list'):
